@@ -531,7 +531,8 @@ hx_collect_vtodo(struct hx_spawn_s *s)
 		s->setuid = (unsigned)strtoul(p + 15, NULL, 10);
 	}
 	if ((p = strstr(buf, "\nDURATION:"))) {
-		s->dur = atoi(p + 10);
+		/* PT<n>S since the daemon writes ISO durations; a bare number before that */
+		s->dur = !strncmp(p + 10, "PT", 2) ? atoi(p + 12) : atoi(p + 10);
 	}
 	s->vtodo_ok = strstr(buf, "BEGIN:VTODO\n") && strstr(buf, "END:VTODO\n") && strstr(buf, "END:VCALENDAR\n");
 }
